@@ -34,7 +34,14 @@ RULE = (
     "append-length sequence); non-trivial = at least two chunks resp. at least two appends or one emitted batch "
     "boundary inside an append; thorough adds the exhaustive sweep n<=5 x chunk sizes 1..n+1 x all base readers x "
     "row-group sizes x all selections of <=2 of 2 columns, and all compositions of n<=5 rows into appends x buffer "
-    "sizes 0..n+1 x buffer kinds x both suffixes"
+    "sizes 0..n+1 x buffer kinds x both suffixes; "
+    "write-once case = (suffix, columns, buffer size, frame, stale file content, separator, index labels of the frame) "
+    "through from_suffix(...).write(frame); auto case = (1-3 writers from from_suffix with their own suffix / buffer "
+    "size / separator / stale file, one buffer kind, a program of appends each going to one or several writers (the "
+    "same object), optionally overwritten by the caller afterwards, run under auto_finalize / an ExitStack of `with "
+    "writer` / explicit initialize-finalize); non-trivial = at least two writers received rows; text readers and "
+    "writers take a separator from {tab, comma, semicolon, bar}; in-memory readers also through "
+    "DataFrameReader.from_series / from_array; get_column_names() is compared for every reader"
 )
 
 # values that survive pandas' CSV type inference unchanged (everything else is excluded and listed in the evidence)
@@ -48,6 +55,8 @@ CSV_EXCLUDED = [
 ]
 WIDE_STR = CSV_SAFE_STR + ["", "NA", "nan", "None", "1", "1.5", "True", "line\nbreak"]
 NAME_POOL = ["a", "b", "score", "Spec Id", "x y", "É", "c1", "target", "peptide", "q-value", "d", "e_f"]
+SEPS = ["\t", "\t", ",", ";", "|"]
+BASES = ("csv", "pq", "frame", "series", "array")
 FLOATS = [0.0, -0.0, 0.5, -1.25, 2.0, 0.1, 1e22, 1e-5, 3.141592653589793, -7.0, 1234.5, 5e-324, 1.7976931348623157e308]
 
 
@@ -146,9 +155,21 @@ class Work:
 
 def gen_base(rng, kind, names, n, index=None):
     csv = kind == "csv"
+    if kind == "frame" and len(names) == 1 and rng.random() < 0.35:
+        # one-column in-memory readers built by DataFrameReader.from_series / from_array
+        kind = "series" if index is not None else rng.choice(["series", "array"])
     types = [rng.choice(["int", "float", "str", "bool"]) for _ in names]
     rows = [[gen_value(rng, t, csv) for t in types] for _ in range(n)]
     node = {"t": kind, "names": list(names), "types": types, "rows": rows}
+    if kind == "series":
+        node["index"] = list(index) if index is not None else list(range(n))
+        node["obj"] = rng.random() < 0.5
+        if rng.random() < 0.5:
+            node["sname"], node["name"] = names[0], None      # from_series(series): the series' own name
+        else:
+            node["sname"], node["name"] = "series-name", names[0]  # from_series(series, name=...)
+    if kind == "array":
+        node["ndarray"] = rng.random() < 0.5
     if kind == "pq":
         node["rg"] = rng.choice([1, 2, 3, 5, max(1, n), 1000])
     if kind == "frame":
@@ -156,15 +177,16 @@ def gen_base(rng, kind, names, n, index=None):
         node["obj"] = rng.random() < 0.5
     if kind == "csv":
         node["suffix"] = rng.choice([".csv", ".pin", ".tab", ".psms", ".peptides", ".weird"])
+        node["sep"] = rng.choice(SEPS)
     return node
 
 
 def table_of(node):
     """the table a reader tree denotes: (names, index labels, rows of atoms)"""
     t = node["t"]
-    if t in ("csv", "pq", "frame"):
+    if t in BASES:
         n = len(node["rows"])
-        idx = list(node["index"]) if t == "frame" else list(range(n))
+        idx = list(node["index"]) if t in ("frame", "series") else list(range(n))
         return list(node["names"]), idx, [[cell_atom(v) for v in r] for r in node["rows"]]
     if t == "mapped":
         names, idx, rows = table_of(node["sub"])
@@ -199,8 +221,9 @@ def build_reader(node, work):
     t = node["t"]
     if t == "csv":
         p = work.path(node["suffix"])
-        make_df(node["names"], node["types"], node["rows"]).to_csv(p, sep="\t", index=False)
-        return TabularDataReader.from_path(p)
+        sep = node.get("sep", "\t")
+        make_df(node["names"], node["types"], node["rows"]).to_csv(p, sep=sep, index=False)
+        return TabularDataReader.from_path(p) if sep == "\t" else TabularDataReader.from_path(p, sep=sep)
     if t == "pq":
         p = work.path(".parquet")
         schema = pa.schema([(n, PA_TYPES[ty]) for n, ty in zip(node["names"], node["types"])])
@@ -210,12 +233,26 @@ def build_reader(node, work):
         return TabularDataReader.from_path(p)
     if t == "frame":
         return DataFrameReader(make_df(node["names"], node["types"], node["rows"], node["index"], node["obj"]))
+    if t == "series":
+        ser = make_series([r[0] for r in node["rows"]], node["types"][0], node["obj"])
+        ser.index = pd.Index(list(node["index"]), dtype="int64")
+        ser.name = node["sname"]
+        if node["name"] is None:
+            return DataFrameReader.from_series(ser)
+        return DataFrameReader.from_series(ser, name=node["name"])
+    if t == "array":
+        vals = [r[0] for r in node["rows"]]
+        if node["ndarray"]:
+            dt = {"int": "int64", "float": "float64", "bool": "bool", "str": object}[node["types"][0]]
+            return DataFrameReader.from_array(np.array(vals, dtype=dt), node["names"][0])
+        return DataFrameReader.from_array(list(vals), node["names"][0])
     if t == "mapped":
         sub = node["sub"]
         if sub["t"] in ("csv", "pq") and node.get("via_from_path", True):
             # exercise TabularDataReader.from_path(..., column_map=...)
             inner = build_reader(sub, work)
-            return TabularDataReader.from_path(inner.file_name, column_map=dict(node["map"]))
+            kw = {"sep": sub["sep"]} if sub.get("sep", "\t") != "\t" else {}
+            return TabularDataReader.from_path(inner.file_name, column_map=dict(node["map"]), **kw)
         return ColumnMappedReader(build_reader(sub, work), dict(node["map"]))
     if t == "joined":
         return JoinedTabularDataReader([build_reader(s, work) for s in node["subs"]])
@@ -245,6 +282,11 @@ def wire_tree(node):
     if t == "frame":
         return [Atom("frame"), node["names"], list(node["index"]),
                 [[Atom(cell_atom(v)) for v in r] for r in node["rows"]]]
+    if t == "series":
+        return [Atom("series"), node["sname"], Atom("none") if node["name"] is None else node["name"],
+                list(node["index"]), [Atom(cell_atom(r[0])) for r in node["rows"]]]
+    if t == "array":
+        return [Atom("array"), node["names"][0], [Atom(cell_atom(r[0])) for r in node["rows"]]]
     if t == "mapped":
         return [Atom("mapped"), wire_tree(node["sub"]), [[k, v] for k, v in node["map"].items()]]
     if t == "joined":
@@ -263,7 +305,7 @@ def wire_tree(node):
 
 def shape_of(node):
     t = node["t"]
-    if t in ("csv", "pq", "frame"):
+    if t in BASES:
         return t
     if t == "mapped":
         return f"mapped({shape_of(node['sub'])})"
@@ -274,7 +316,7 @@ def shape_of(node):
 
 def n_rows(node):
     t = node["t"]
-    if t in ("csv", "pq", "frame"):
+    if t in BASES:
         return len(node["rows"])
     if t == "joined":
         return n_rows(node["subs"][0])
@@ -285,9 +327,9 @@ def keep_rows(node, keep):
     """the same tree over the sub-table of the rows at positions `keep` (for shrinking)"""
     t = node["t"]
     d = dict(node)
-    if t in ("csv", "pq", "frame"):
+    if t in BASES:
         d["rows"] = [node["rows"][i] for i in keep]
-        if t == "frame":
+        if t in ("frame", "series"):
             d["index"] = [node["index"][i] for i in keep]
     elif t == "joined":
         d["subs"] = [keep_rows(s, keep) for s in node["subs"]]
@@ -357,7 +399,7 @@ def gen_tree(rng, nmax):
         tnames = table_of(tree)[0]
         col = rng.choice(["k", "is_decoy", "new col"])
         int_cols = []
-        if tree["t"] in ("csv", "pq", "frame"):
+        if tree["t"] in BASES:
             int_cols = [x for x, ty in zip(tree["names"], tree["types"]) if ty == "int"]
         r = rng.random()
         if r < 0.35:
@@ -413,13 +455,17 @@ def expected_select(tree, cols):
 
 
 def run_impl_reader(case, work):
-    """-> ('ok', read canon, [chunk canon...]) | ('raise', where, repr)"""
+    """-> ('ok', read canon, [chunk canon...], column names) | ('raise', where, repr)"""
     with warnings.catch_warnings():
         warnings.simplefilter("ignore")
         try:
             reader = build_reader(case["tree"], work)
         except Exception as e:  # building the fixture itself must not fail
             raise RuntimeError(f"fixture construction failed: {e!r}")
+        try:
+            colnames = [str(x) for x in reader.get_column_names()]
+        except Exception as e:
+            return ("raise", "get_column_names", f"{type(e).__name__}: {e}"[:300])
         try:
             whole = canon_df(reader.read(case["cols"]))
         except Exception as e:
@@ -428,7 +474,7 @@ def run_impl_reader(case, work):
             chunks = [canon_df(ch) for ch in reader.get_chunked_data_iterator(case["c"], case["cols"])]
         except Exception as e:
             return ("raise", "chunked", f"{type(e).__name__}: {e}"[:300])
-    return ("ok", whole, chunks)
+    return ("ok", whole, chunks, colnames)
 
 
 def reader_spec_verdict(case, impl):
@@ -439,7 +485,9 @@ def reader_spec_verdict(case, impl):
         return None
     if impl[0] == "raise":
         return (f"reader-exception:{impl[1]}:{shape}", "the reader raised on a well-formed request: " + impl[2], exp)
-    _, whole, chunks = impl
+    _, whole, chunks, colnames = impl
+    if colnames != table_of(case["tree"])[0]:
+        return (f"column-names:{shape}", "get_column_names() is not the list of the table's columns, in order", exp)
     if whole != exp:
         return (f"read-differs-from-table:{shape}",
                 "read(columns) is not the table restricted to the requested columns in the requested order "
@@ -469,11 +517,14 @@ def eval_reader_cases(chk, cases, work, tally=True):
         lines.append(req("tab-read", w, cols))
         lines.append(req("tab-chunked", w, cs["c"], cols))
         lines.append(req("tab-spec-select", cols, names, idx, [[Atom(x) for x in r] for r in rows]))
+        lines.append(req("tab-names", w))
     resp = common.driver_batch(lines)
     for k, cs in enumerate(cases):
-        r_read, r_chunked, r_spec = (dec(resp[3 * k]), dec(resp[3 * k + 1]), dec(resp[3 * k + 2]))
-        if "bad-" in resp[3 * k] or "bad-" in resp[3 * k + 1] or "bad-" in resp[3 * k + 2]:
-            raise RuntimeError(f"driver rejected the request of case {cs}: {resp[3 * k: 3 * k + 3]}")
+        r_read, r_chunked, r_spec = (dec(resp[4 * k]), dec(resp[4 * k + 1]), dec(resp[4 * k + 2]))
+        if any("bad-" in x for x in resp[4 * k: 4 * k + 4]):
+            raise RuntimeError(f"driver rejected the request of case {cs}: {resp[4 * k: 4 * k + 4]}")
+        r_names = dec(resp[4 * k + 3])
+        m_names = [a_str(x) for x in (r_names if isinstance(r_names, list) else [r_names])]
         impl = run_impl_reader(cs, work)
         shape = shape_of(cs["tree"])
         n = n_rows(cs["tree"])
@@ -488,6 +539,10 @@ def eval_reader_cases(chk, cases, work, tally=True):
             chk.count("rows", n)
             chk.count("chunk_size_vs_rows", "c>n" if cs["c"] > n else ("c=n" if cs["c"] == n else "c<n"))
             chk.count("columns", "None" if cs["cols"] is None else ("empty" if not cs["cols"] else "subset"))
+            for sp in _seps_of(cs["tree"]):
+                chk.count("text_reader_sep", repr(sp))
+            for b in _bases_of(cs["tree"]):
+                chk.count("base_reader", b)
         exp = expected_select(cs["tree"], cs["cols"])
         if exp is None:
             # columns=None on a computed-column reader: typeguard / TypeError in both paths, no promise
@@ -511,13 +566,35 @@ def eval_reader_cases(chk, cases, work, tally=True):
         # model vs implementation, chunk by chunk
         m_read = None if r_read == "reject" else parse_model_df(r_read)
         m_chunks = None if r_chunked == "reject" else [parse_model_df(x) for x in r_chunked]
-        if m_read != impl[1]:
+        if m_names != impl[3]:
+            chk.corr_break("tab-names", dict(case=jsonable_case(cs), impl=impl[3], model=m_names))
+        elif m_read != impl[1]:
             chk.corr_break("tab-read", dict(case=jsonable_case(cs), impl=_short(impl), model=str(m_read)[:600]))
         elif m_chunks != impl[2]:
             chk.corr_break("tab-chunked", dict(case=jsonable_case(cs),
                                               impl=[(ch[0], [r[0] for r in ch[1]]) for ch in impl[2]],
                                               model=None if m_chunks is None else
                                               [(ch[0], [r[0] for r in ch[1]]) for ch in m_chunks]))
+
+
+def _seps_of(node):
+    t = node["t"]
+    if t == "csv":
+        return [node.get("sep", "\t")]
+    if t == "joined":
+        return [x for s_ in node["subs"] for x in _seps_of(s_)]
+    if t in ("mapped", "computed"):
+        return _seps_of(node["sub"])
+    return []
+
+
+def _bases_of(node):
+    t = node["t"]
+    if t in BASES:
+        return [t]
+    if t == "joined":
+        return [x for s_ in node["subs"] for x in _bases_of(s_)]
+    return _bases_of(node["sub"])
 
 
 def _short(impl):
@@ -565,7 +642,9 @@ def gen_writer_case(rng, nmax=12):
                 appends.append({"a": "dicts", "rows": part})
     case = {"kind": "writer", "suffix": suffix, "names": names, "types": types, "bufsize": bufsize, "bkind": kind,
             "appends": appends, "stale": rng.choice(["none", "garbage", "same-header"]),
-            "read_c": rng.choice([1, 2, 3, max(1, n)])}
+            "read_c": rng.choice([1, 2, 3, max(1, n)]),
+            # extension: separator option, index labels of the appended frames, `with writer:` instead of explicit calls
+            "sep": rng.choice(SEPS), "index": rng.choice(INDEX_MODES), "ctx": rng.choice(["explicit", "with"])}
     if rng.random() < 0.15 and ncols >= 2 and bufsize <= 1 and any(a["rows"] for a in appends):
         # one append with its columns in another order: the text writer refuses it, the Parquet writer goes by name
         perm = list(range(ncols))
@@ -574,6 +653,47 @@ def gen_writer_case(rng, nmax=12):
         cand = [i for i, a in enumerate(appends) if a["rows"]]
         case["perm"] = [rng.choice(cand), perm]
     return case
+
+
+INDEX_MODES = ["default", "default", "shifted", "reversed", "dup"]
+
+
+def frame_index(mode, n):
+    """index labels of a frame handed to a writer (never written: index=False / preserve_index=False)"""
+    if mode == "shifted":
+        return [100 + 3 * i for i in range(n)]
+    if mode == "reversed":
+        return list(range(n - 1, -1, -1))
+    if mode == "dup":
+        return [7] * n
+    return None
+
+
+def make_stale(p, stale, names, types, is_pq):
+    if stale == "garbage":
+        p.write_bytes(b"PAR1 stale\tjunk\n1\t2\n3\t4\n")
+    elif stale == "same-header":
+        if is_pq:
+            pq.write_table(pa.table({n: pa.array([], type=PA_TYPES[t]) for n, t in zip(names, types)}
+                                    | {"zz_stale": pa.array([], type=pa.int64())}), p)
+            pq.write_table(pa.table({"zz_stale": [1, 2, 3]}), p)
+        else:
+            p.write_text("\t".join(names) + "\n" + "\t".join("9" for _ in names) + "\n")
+
+
+def stale_wire(stale, names, with_sep=False):
+    """previous content of a text file as the model sees it"""
+    pre = ["\t"] if with_sep else []
+    if stale == "same-header":
+        return pre + [list(names), [[Atom("i9") for _ in names]]]
+    if stale == "garbage":
+        return pre + [["PAR1 stale", "junk"], [[Atom("i1"), Atom("i2")], [Atom("i3"), Atom("i4")]]]
+    return Atom("none")
+
+
+def sep_kwargs(case_or_sep, is_pq):
+    sep = case_or_sep if isinstance(case_or_sep, str) else case_or_sep.get("sep", "\t")
+    return {} if is_pq or sep == "\t" else {"sep": sep}
 
 
 def writer_args(case):
@@ -589,7 +709,7 @@ def writer_args(case):
         rows = [[r[j] for j in order] for r in a["rows"]]
         wrows = [[[n_, Atom(cell_atom(v))] for n_, v in zip(nm, r)] for r in rows]
         if a["a"] == "frame":
-            objs.append(make_df(nm, ty, rows))
+            objs.append(make_df(nm, ty, rows, index=frame_index(case.get("index", "default"), len(rows))))
             wire.append([Atom("frame"), nm, wrows])
         elif a["a"] == "dict":
             objs.append(dict(zip(nm, rows[0])))
@@ -604,58 +724,66 @@ def writer_args(case):
     return objs, wire
 
 
+def read_back(w, p, read_c, is_pq, sepkw):
+    """what the associated reader (whole and chunk-wise) and from_path read from the finalised file"""
+    from mokapot.tabular_data import TabularDataReader
+
+    rd = w.get_associated_reader()
+    whole = canon_df(rd.read())
+    chunks = [canon_df(ch) for ch in rd.get_chunked_data_iterator(read_c)]
+    via_path = canon_df(TabularDataReader.from_path(p, **sepkw).read())
+    groups = None
+    if is_pq:
+        md = pq.ParquetFile(p).metadata
+        groups = [md.row_group(i).num_rows for i in range(md.num_row_groups)]
+    return whole, chunks, groups, via_path
+
+
 def run_impl_writer(case, work):
-    """-> ('ok', read canon, chunk canons, parquet row-group sizes | None) | ('raise', where, repr)"""
+    """-> ('ok', read canon, chunk canons, parquet row-group sizes | None, from_path canon) | ('raise', where, repr)"""
     from mokapot.tabular_data import TableType, TabularDataWriter
 
     tt = {"dataframe": TableType.DataFrame, "dicts": TableType.Dicts, "records": TableType.Records}[case["bkind"]]
     p = work.path(case["suffix"])
     is_pq = case["suffix"] == ".parquet"
-    if case["stale"] == "garbage":
-        p.write_bytes(b"PAR1 stale\tjunk\n1\t2\n3\t4\n")
-    elif case["stale"] == "same-header":
-        if is_pq:
-            pq.write_table(pa.table({n: pa.array([], type=PA_TYPES[t]) for n, t in zip(case["names"], case["types"])}
-                                    | {"zz_stale": pa.array([], type=pa.int64())}), p)
-            pq.write_table(pa.table({"zz_stale": [1, 2, 3]}), p)
-        else:
-            p.write_text("\t".join(case["names"]) + "\n" + "\t".join("9" for _ in case["names"]) + "\n")
+    make_stale(p, case["stale"], case["names"], case["types"], is_pq)
     objs, _ = writer_args(case)
-    kwargs = {}
+    kwargs = dict(sep_kwargs(case, is_pq))
     if is_pq:
         kwargs["column_types"] = [PA_TYPES[t] for t in case["types"]]
     with warnings.catch_warnings():
         warnings.simplefilter("ignore")
+        stage = "initialize"
         try:
             w = TabularDataWriter.from_suffix(p, list(case["names"]), buffer_size=case["bufsize"], buffer_type=tt,
                                               **kwargs)
-            w.initialize()
-        except Exception as e:
-            return ("raise", "initialize", f"{type(e).__name__}: {e}"[:300])
-        try:
-            for o in objs:
-                w.append_data(o)
-        except Exception as e:
-            try:
+            if case.get("ctx") == "with":
+                with w:
+                    stage = "append_data"
+                    for o in objs:
+                        w.append_data(o)
+                    stage = "finalize"
+            else:
+                w.initialize()
+                stage = "append_data"
+                try:
+                    for o in objs:
+                        w.append_data(o)
+                except Exception:
+                    try:
+                        w.finalize()
+                    except Exception:
+                        pass
+                    raise
+                stage = "finalize"
                 w.finalize()
-            except Exception:
-                pass
-            return ("raise", "append_data", f"{type(e).__name__}: {e}"[:300])
-        try:
-            w.finalize()
         except Exception as e:
-            return ("raise", "finalize", f"{type(e).__name__}: {e}"[:300])
+            return ("raise", stage, f"{type(e).__name__}: {e}"[:300])
         try:
-            rd = w.get_associated_reader()
-            whole = canon_df(rd.read())
-            chunks = [canon_df(ch) for ch in rd.get_chunked_data_iterator(case["read_c"])]
+            whole, chunks, groups, via_path = read_back(w, p, case["read_c"], is_pq, sep_kwargs(case, is_pq))
         except Exception as e:
             return ("raise", "read-back", f"{type(e).__name__}: {e}"[:300])
-        groups = None
-        if is_pq:
-            md = pq.ParquetFile(p).metadata
-            groups = [md.row_group(i).num_rows for i in range(md.num_row_groups)]
-    return ("ok", whole, chunks, groups)
+    return ("ok", whole, chunks, groups, via_path)
 
 
 def writer_expected(case):
@@ -694,6 +822,9 @@ def writer_spec_verdict(case, impl):
     if cat != exp[1]:
         return (f"writer-roundtrip-chunked:{tag}", "chunk-wise read-back of the finalised file differs from the "
                 "appended rows", exp)
+    if len(impl) > 4 and impl[4] != exp:
+        return (f"writer-roundtrip-from_path:{tag}", "TabularDataReader.from_path on the finalised file does not "
+                "return the appended rows", exp)
     return None
 
 
@@ -705,12 +836,7 @@ def eval_writer_cases(chk, cases, work, tally=True):
         if cs["suffix"] == ".parquet":
             lines.append(req("tab-wr-pq", cs["names"], cs["bufsize"], kind, wire))
         else:
-            old = Atom("none")
-            if cs["stale"] == "same-header":
-                old = [cs["names"], [[Atom("i9") for _ in cs["names"]]]]
-            elif cs["stale"] == "garbage":
-                old = [["PAR1 stale", "junk"], [[Atom("i1"), Atom("i2")], [Atom("i3"), Atom("i4")]]]
-            lines.append(req("tab-wr-csv", cs["names"], cs["bufsize"], kind, old, wire))
+            lines.append(req("tab-wr-csv", cs["names"], cs["bufsize"], kind, stale_wire(cs["stale"], cs["names"]), wire))
     resp = common.driver_batch(lines)
     for k, cs in enumerate(cases):
         if "bad-" in resp[k]:
@@ -731,6 +857,10 @@ def eval_writer_cases(chk, cases, work, tally=True):
                       ("size>n" if cs["bufsize"] > sum(lens) else "size<=n"))
             chk.count("appends", min(len(lens), 9))
             chk.count("stale_file", cs["stale"])
+            if not is_pq:
+                chk.count("text_writer_sep", repr(cs.get("sep", "\t")))
+            chk.count("appended_frame_index", cs.get("index", "default") if cs["bkind"] == "dataframe" else "n/a")
+            chk.count("writer_lifetime", cs.get("ctx", "explicit"))
         model_reject = r_model in ("reject", "reject-read")
         if not writer_wellformed(cs):
             # text writer + permuted columns: check_valid_data raises ValueError; no promise
@@ -759,6 +889,425 @@ def eval_writer_cases(chk, cases, work, tally=True):
             # informational: the batches handed to the Parquet writer are visible as row groups
             m_groups = [int(x) for x in r_model[1]]
             chk.count("parquet_row_groups_agree_with_model", m_groups == impl[3])
+
+
+# ----------------------------------------------------------------------------------------------------------
+# extension: one-shot write(data)
+# ----------------------------------------------------------------------------------------------------------
+def gen_write1_case(rng, nmax=10):
+    suffix = rng.choice([".csv", ".parquet", ".proteins", ".weird"])
+    ncols = rng.choice([1, 2, 3, 4])
+    names = rng.sample(NAME_POOL, ncols)
+    types = [rng.choice(["int", "float", "str", "bool"]) for _ in names]
+    n = min(nmax, rng.choice([0, 1, 2, 3, 5, 8, 10]))
+    rows = [[gen_value(rng, t, True) for t in types] for _ in range(n)]
+    bufsize = rng.choice([0, 0, 1, 2, 3, max(2, n), n + 1, 1000])
+    case = {"kind": "write1", "suffix": suffix, "names": names, "types": types, "rows": rows, "bufsize": bufsize,
+            "bkind": rng.choice(KINDS) if bufsize > 1 else "dataframe",
+            "stale": rng.choice(["none", "garbage", "same-header"]), "sep": rng.choice(SEPS),
+            "index": rng.choice(INDEX_MODES), "read_c": rng.choice([1, 2, 3, max(1, n)]),
+            "with_types": rng.random() < 0.5}
+    if rng.random() < 0.15 and ncols >= 2:
+        perm = list(range(ncols))
+        while perm == list(range(ncols)):
+            rng.shuffle(perm)
+        case["perm"] = perm
+    return case
+
+
+def write1_frame(case):
+    order = case.get("perm") or list(range(len(case["names"])))
+    nm = [case["names"][j] for j in order]
+    ty = [case["types"][j] for j in order]
+    rows = [[r[j] for j in order] for r in case["rows"]]
+    df = make_df(nm, ty, rows, index=frame_index(case.get("index", "default"), len(rows)))
+    wire = [nm, [[[n_, Atom(cell_atom(v))] for n_, v in zip(nm, r)] for r in rows]]
+    return df, wire, nm
+
+
+def run_impl_write1(case, work):
+    from mokapot.tabular_data import TableType, TabularDataWriter
+
+    tt = {"dataframe": TableType.DataFrame, "dicts": TableType.Dicts, "records": TableType.Records}[case["bkind"]]
+    p = work.path(case["suffix"])
+    is_pq = case["suffix"] == ".parquet"
+    make_stale(p, case["stale"], case["names"], case["types"], is_pq)
+    df, _, _ = write1_frame(case)
+    kwargs = dict(sep_kwargs(case, is_pq))
+    if is_pq and case.get("with_types"):
+        kwargs["column_types"] = [PA_TYPES[t] for t in case["types"]]
+    with warnings.catch_warnings():
+        warnings.simplefilter("ignore")
+        try:
+            w = TabularDataWriter.from_suffix(p, list(case["names"]), buffer_size=case["bufsize"], buffer_type=tt,
+                                              **kwargs)
+            w.write(df)
+        except Exception as e:
+            return ("raise", "write", f"{type(e).__name__}: {e}"[:300])
+        try:
+            whole, chunks, groups, via_path = read_back(w, p, case["read_c"], is_pq, sep_kwargs(case, is_pq))
+        except Exception as e:
+            return ("raise", "read-back", f"{type(e).__name__}: {e}"[:300])
+    return ("ok", whole, chunks, groups, via_path)
+
+
+def write1_expected(case):
+    names = case["names"]
+    return (list(names), [(i, [(n, cell_atom(v)) for n, v in zip(names, r)]) for i, r in enumerate(case["rows"])])
+
+
+def write1_spec_verdict(case, impl):
+    v = writer_spec_verdict(dict(case, appends=[{"a": "frame", "rows": case["rows"]}]), impl)
+    if v is None:
+        return None
+    return (v[0].replace("writer-", "write-once-", 1), "write(data): " + v[1], v[2])
+
+
+def eval_write1_cases(chk, cases, work, tally=True):
+    lines = []
+    for cs in cases:
+        _, wire, _ = write1_frame(cs)
+        is_pq = cs["suffix"] == ".parquet"
+        lines.append(req("tab-write1", Atom("pq" if is_pq else "csv"), cs["names"], cs["bufsize"],
+                         Atom("none") if is_pq else stale_wire(cs["stale"], cs["names"]), wire))
+    resp = common.driver_batch(lines)
+    for k, cs in enumerate(cases):
+        if "bad-" in resp[k]:
+            raise RuntimeError(f"driver rejected the request of case {cs}: {resp[k]}")
+        r_model = dec(resp[k])
+        impl = run_impl_write1(cs, work)
+        is_pq = cs["suffix"] == ".parquet"
+        if tally:
+            chk.case(None, ("write1", cs["suffix"], cs["bufsize"], len(cs["rows"]), tuple(cs["types"]), cs["stale"])
+                     if cs["rows"] else None,
+                     sample=dict(writer=cs["suffix"], entry="write(data)", buffer_size=cs["bufsize"],
+                                 rows=len(cs["rows"]), stale=cs["stale"]))
+            chk.count("write_once", ("parquet" if is_pq else "text") + (":buffered" if cs["bufsize"] > 1 else ":plain"))
+            chk.count("write_once_rows", len(cs["rows"]))
+            chk.count("write_once_frame_index", cs["index"])
+            chk.count("write_once_stale_file", cs["stale"])
+        model_reject = r_model in ("reject", "reject-read")
+        if cs.get("perm"):
+            # a frame whose columns are in another order: outside the property's quantifier
+            if not is_pq:
+                if impl[0] == "raise":
+                    chk.reject("text-write-column-order:" + impl[2].split(":")[0])
+                    if not model_reject:
+                        chk.corr_break("tab-write1", dict(case=jsonable_case(cs), impl="raises", model="accepts"))
+                else:
+                    chk.corr_break("tab-write1", dict(case=jsonable_case(cs), impl="accepts permuted columns",
+                                                      model=str(r_model)[:200]))
+            else:
+                chk.count("write_once_parquet_permuted_columns", "accepted" if impl[0] == "ok" else "raised")
+                m_df = None if model_reject else parse_model_df(r_model[0])
+                if (impl[1] if impl[0] == "ok" else None) != m_df:
+                    chk.corr_break("tab-write1", dict(case=jsonable_case(cs), impl=str(impl[1])[:400],
+                                                      model=str(m_df)[:400]))
+            continue
+        verdict = write1_spec_verdict(cs, impl)
+        if verdict is not None:
+            sig, clause, exp = verdict
+            chk.spec_violation(sig, dict(case=jsonable_case(cs), clause=clause,
+                                         impl=_short(impl[:3]) if impl[0] == "ok" else _short(impl),
+                                         expected=_short(("ok", exp, None))))
+            continue
+        if model_reject:
+            chk.corr_break("tab-write1", dict(case=jsonable_case(cs), impl="succeeds", model=str(r_model)))
+            continue
+        m_df = parse_model_df(r_model[0] if is_pq else r_model)
+        if m_df != impl[1]:
+            chk.corr_break("tab-write1", dict(case=jsonable_case(cs), impl=_short(impl[:3]), model=str(m_df)[:600]))
+        if is_pq:
+            chk.count("write_once_parquet_row_groups_agree_with_model", [int(x) for x in r_model[1]] == impl[3])
+
+
+# ----------------------------------------------------------------------------------------------------------
+# extension: several writer objects under auto_finalize / context managers, appends interleaved
+# ----------------------------------------------------------------------------------------------------------
+def gen_auto_case(rng, nmax=8):
+    ncols = rng.choice([1, 2, 3])
+    names = rng.sample(NAME_POOL, ncols)
+    types = [rng.choice(["int", "float", "str", "bool"]) for _ in names]
+    bkind = rng.choice(KINDS)
+    nw = rng.choice([1, 2, 2, 2, 3])
+    writers = []
+    for _ in range(nw):
+        bufsize = rng.choice([2, 2, 3, 4, 1000]) if bkind != "dataframe" else rng.choice([0, 0, 1, 2, 3, 4, 1000])
+        writers.append({"suffix": rng.choice([".csv", ".parquet", ".tab", ".weird"]), "bufsize": bufsize,
+                        "sep": rng.choice(SEPS), "stale": rng.choice(["none", "garbage", "same-header"])})
+    steps = []
+    for _ in range(min(nmax, rng.choice([0, 1, 2, 3, 4, 5, 6, 8]))):
+        if bkind == "records":
+            k, form = 1, "record"
+        elif bkind == "dicts":
+            k = rng.choice([0, 1, 1, 1, 2, 3])
+            form = "dict" if k == 1 and rng.random() < 0.6 else "dicts"
+        else:
+            k, form = rng.choice([0, 1, 1, 2, 3, 5]), "frame"
+        rows = [[gen_value(rng, t, True) for t in types] for _ in range(k)]
+        to = sorted(rng.sample(range(nw), 1 if rng.random() < 0.6 else rng.randint(1, nw)))
+        mut = None
+        if k > 0 and rng.random() < 0.12:
+            # the caller re-uses the object: overwrites its cells after append_data returned
+            mut = [[gen_value(rng, t, True) for t in types] for _ in range(k)]
+        steps.append({"a": form, "rows": rows, "to": to, "mutate": mut})
+    return {"kind": "auto", "names": names, "types": types, "bkind": bkind, "writers": writers, "steps": steps,
+            "mode": rng.choice(["auto_finalize", "auto_finalize", "exit-stack", "explicit"]),
+            "index": rng.choice(INDEX_MODES), "read_c": rng.choice([1, 2, 3])}
+
+
+def auto_object(case, step):
+    names, types, rows = case["names"], case["types"], step["rows"]
+    if step["a"] == "frame":
+        return make_df(names, types, rows, index=frame_index(case.get("index", "default"), len(rows)))
+    if step["a"] == "dict":
+        return dict(zip(names, rows[0]))
+    if step["a"] == "dicts":
+        return [dict(zip(names, r)) for r in rows]
+    return make_df(names, types, rows, str_object=True).to_records(index=False)[0]
+
+
+def auto_mutate(case, step, obj):
+    """the caller overwrites the object it appended (in place) and empties containers it owns"""
+    names, new = case["names"], step["mutate"]
+    if step["a"] == "frame":
+        for i, r in enumerate(new):
+            for k in range(len(names)):
+                obj.iat[i, k] = r[k]
+    elif step["a"] == "dict":
+        for n_, v in zip(names, new[0]):
+            obj[n_] = v
+    elif step["a"] == "dicts":
+        for d, r in zip(obj, new):
+            for n_, v in zip(names, r):
+                d[n_] = v
+        obj.clear()
+    else:
+        for n_, v in zip(names, new[0]):
+            obj[n_] = v
+
+
+def auto_wire(case):
+    names = case["names"]
+    specs = []
+    for wd in case["writers"]:
+        kind = Atom(case["bkind"])
+        if wd["suffix"] == ".parquet":
+            specs.append([Atom("pq"), names, wd["bufsize"], kind])
+        else:
+            specs.append([Atom("csv"), names, wd["bufsize"], kind, wd["sep"],
+                          stale_wire(wd["stale"], names, with_sep=True)])
+    prog = []
+    for st in case["steps"]:
+        wrows = [[[n_, Atom(cell_atom(v))] for n_, v in zip(names, r)] for r in st["rows"]]
+        if st["a"] == "frame":
+            arg = [Atom("frame"), names, wrows]
+        elif st["a"] == "dict":
+            arg = [Atom("dict"), wrows[0]]
+        elif st["a"] == "dicts":
+            arg = [Atom("dicts"), wrows]
+        else:
+            arg = [Atom("record"), wrows[0]]
+        for i in st["to"]:
+            prog.append([i, arg])
+    return specs, prog
+
+
+def run_impl_auto(case, work, mutate=True):
+    """-> ('ok', [per writer (read canon, chunk canons, groups, from_path canon)]) | ('raise', where, repr)"""
+    import contextlib
+
+    from mokapot.tabular_data import TableType, TabularDataWriter, auto_finalize
+
+    tt = {"dataframe": TableType.DataFrame, "dicts": TableType.Dicts, "records": TableType.Records}[case["bkind"]]
+    names, types = case["names"], case["types"]
+    paths, ws = [], []
+    with warnings.catch_warnings():
+        warnings.simplefilter("ignore")
+        stage = "from_suffix"
+        try:
+            for wd in case["writers"]:
+                p = work.path(wd["suffix"])
+                is_pq = wd["suffix"] == ".parquet"
+                make_stale(p, wd["stale"], names, types, is_pq)
+                kwargs = dict(sep_kwargs(wd["sep"], is_pq))
+                if is_pq:
+                    kwargs["column_types"] = [PA_TYPES[t] for t in types]
+                ws.append(TabularDataWriter.from_suffix(p, list(names), buffer_size=wd["bufsize"], buffer_type=tt,
+                                                        **kwargs))
+                paths.append(p)
+
+            def body():
+                for st in case["steps"]:
+                    obj = auto_object(case, st)
+                    for i in st["to"]:
+                        ws[i].append_data(obj)
+                    if mutate and st.get("mutate"):
+                        auto_mutate(case, st, obj)
+
+            stage = "block"
+            if case["mode"] == "auto_finalize":
+                with auto_finalize(ws):
+                    body()
+            elif case["mode"] == "exit-stack":
+                with contextlib.ExitStack() as stack:
+                    for w in ws:
+                        stack.enter_context(w)
+                    body()
+            else:
+                for w in ws:
+                    w.initialize()
+                try:
+                    body()
+                finally:
+                    for w in ws:
+                        w.finalize()
+        except Exception as e:
+            return ("raise", stage, f"{type(e).__name__}: {e}"[:300])
+        out = []
+        try:
+            for w, p, wd in zip(ws, paths, case["writers"]):
+                is_pq = wd["suffix"] == ".parquet"
+                out.append(read_back(w, p, case["read_c"], is_pq, sep_kwargs(wd["sep"], is_pq)))
+        except Exception as e:
+            return ("raise", "read-back", f"{type(e).__name__}: {e}"[:300])
+    return ("ok", out)
+
+
+def auto_expected(case, i):
+    names = case["names"]
+    rows = [r for st in case["steps"] if i in st["to"] for r in st["rows"]]
+    return (list(names), [(j, [(n, cell_atom(v)) for n, v in zip(names, r)]) for j, r in enumerate(rows)])
+
+
+def auto_spec_verdict(case, impl):
+    """None if every file reads back the rows appended to its writer, else (signature, clause, writer number, expected)"""
+    if impl[0] == "raise":
+        return (f"auto-finalize-exception:{impl[1]}:{case['bkind']}",
+                "writers under auto_finalize / context managers raised on well-formed appends: " + impl[2], None, None)
+    for i, (wd, got) in enumerate(zip(case["writers"], impl[1])):
+        exp = auto_expected(case, i)
+        fake = {"suffix": wd["suffix"], "bkind": case["bkind"], "bufsize": wd["bufsize"], "names": case["names"],
+                "appends": [{"a": "x", "rows": [r for st in case["steps"] if i in st["to"] for r in st["rows"]]}]}
+        v = writer_spec_verdict(fake, ("ok", got[0], got[1], got[2], got[3]))
+        if v is not None:
+            return (v[0].replace("writer-", "auto-finalize-", 1),
+                    f"writer {i} of {len(case['writers'])} used in one block with interleaved appends: " + v[1], i, exp)
+    return None
+
+
+def auto_classify(case, impl, work):
+    """spec verdict with the aliasing cases told apart: a failure that disappears when the caller does not touch the
+    appended objects afterwards is the writer keeping a reference to the caller's object"""
+    v = auto_spec_verdict(case, impl)
+    if v is None or not any(st.get("mutate") for st in case["steps"]):
+        return v
+    if auto_spec_verdict(case, run_impl_auto(case, work, mutate=False)) is None:
+        return (f"writer-aliasing:{case['bkind']}",
+                "a buffered writer keeps a reference to the object handed to append_data: overwriting that object "
+                "afterwards changes the rows that reach the file (appended rows are not returned unchanged)", v[2], v[3])
+    return v
+
+
+def eval_auto_cases(chk, cases, work, tally=True):
+    lines = []
+    for cs in cases:
+        specs, prog = auto_wire(cs)
+        lines.append(req("tab-auto", specs, prog))
+    resp = common.driver_batch(lines)
+    for k, cs in enumerate(cases):
+        if "bad-" in resp[k]:
+            raise RuntimeError(f"driver rejected the request of case {cs}: {resp[k]}")
+        r_model = dec(resp[k])
+        impl = run_impl_auto(cs, work)
+        nw = len(cs["writers"])
+        fed = [i for i in range(nw) if any(i in st["to"] and st["rows"] for st in cs["steps"])]
+        if tally:
+            key = (tuple((w["suffix"], w["bufsize"]) for w in cs["writers"]), cs["bkind"],
+                   tuple((tuple(st["to"]), len(st["rows"])) for st in cs["steps"]))
+            chk.case(None, key if len(fed) >= 2 else None,
+                     sample=dict(writers=[(w["suffix"], w["bufsize"], w["sep"]) for w in cs["writers"]],
+                                 buffer_kind=cs["bkind"], lifetime=cs["mode"],
+                                 appends=[(st["to"], len(st["rows"])) for st in cs["steps"]]))
+            chk.count("auto_writers", nw)
+            chk.count("auto_lifetime", cs["mode"])
+            chk.count("auto_buffer_kind", cs["bkind"])
+            chk.count("auto_steps", len(cs["steps"]))
+            chk.count("auto_object_shared_between_writers", any(len(st["to"]) > 1 for st in cs["steps"]))
+            chk.count("auto_object_overwritten_after_append", any(st.get("mutate") for st in cs["steps"]))
+            for w in cs["writers"]:
+                if w["suffix"] != ".parquet":
+                    chk.count("text_writer_sep", repr(w["sep"]))
+        verdict = auto_classify(cs, impl, work)
+        if verdict is not None:
+            sig, clause, i, exp = verdict
+            info = dict(case=jsonable_case(cs), clause=clause)
+            if impl[0] == "ok" and i is not None:
+                info["writer"] = i
+                info["impl"] = _short(("ok", impl[1][i][0], impl[1][i][1]))
+                info["expected"] = _short(("ok", exp, None))
+            else:
+                info["impl"] = _short(impl)
+            chk.spec_violation(sig, info)
+            continue
+        if r_model == "reject":
+            chk.corr_break("tab-auto", dict(case=jsonable_case(cs), impl="succeeds", model="reject"))
+            continue
+        for i, (wd, got) in enumerate(zip(cs["writers"], impl[1])):
+            is_pq = wd["suffix"] == ".parquet"
+            rm = r_model[i]
+            if rm == "reject-read":
+                chk.corr_break("tab-auto", dict(case=jsonable_case(cs), writer=i, impl="readable", model="reject-read"))
+                break
+            m_df = parse_model_df(rm[0] if is_pq else rm)
+            if m_df != got[0]:
+                chk.corr_break("tab-auto", dict(case=jsonable_case(cs), writer=i,
+                                                impl=_short(("ok", got[0], None)), model=str(m_df)[:600]))
+                break
+            if is_pq:
+                chk.count("parquet_row_groups_agree_with_model", [int(x) for x in rm[1]] == got[2])
+
+
+def exhaustive_auto(nmax, npairs=4):
+    """two writers, every program of <= nmax one-row appends to either or both, a few writer pairs and lifetimes"""
+    cases = []
+    pairs = [
+        ("dataframe", [(".csv", 2, ","), (".parquet", 0, "\t")]),
+        ("dicts", [(".csv", 2, "\t"), (".parquet", 3, "\t")]),
+        ("records", [(".parquet", 2, "\t"), (".csv", 3, "|")]),
+        ("dataframe", [(".parquet", 3, "\t"), (".tab", 0, ";")]),
+    ][:npairs]
+    for bkind, pair in pairs:
+        writers = [{"suffix": sf, "bufsize": b, "sep": sp, "stale": "same-header" if j else "none"}
+                   for j, (sf, b, sp) in enumerate(pair)]
+        form = {"dataframe": "frame", "dicts": "dict", "records": "record"}[bkind]
+        for n in range(0, nmax + 1):
+            for tos in itertools.product(([0], [1], [0, 1]), repeat=n):
+                steps = [{"a": form, "rows": [[10 + j, f"s{j}"]], "to": list(to), "mutate": None}
+                         for j, to in enumerate(tos)]
+                cases.append({"kind": "auto", "names": ["a", "b"], "types": ["int", "str"], "bkind": bkind,
+                              "writers": writers, "steps": steps,
+                              "mode": ["auto_finalize", "exit-stack", "explicit"][n % 3], "index": "default",
+                              "read_c": 2})
+                if 1 <= n <= 2:
+                    # the same program with every appended object overwritten by the caller afterwards
+                    cases.append(dict(cases[-1], steps=[dict(st, mutate=[[-1, "gone"]]) for st in steps]))
+    return cases
+
+
+def exhaustive_write1(nmax):
+    cases = []
+    for n in range(0, nmax + 1):
+        rows = [[10 + i, f"s{i}", i % 2 == 0] for i in range(n)]
+        for suffix in (".csv", ".parquet"):
+            for bufsize in (0, 2, n + 1):
+                for stale in ("none", "garbage", "same-header"):
+                    cases.append({"kind": "write1", "suffix": suffix, "names": ["a", "b", "c"],
+                                  "types": ["int", "str", "bool"], "rows": rows, "bufsize": bufsize,
+                                  "bkind": "dicts" if bufsize > 1 else "dataframe", "stale": stale,
+                                  "sep": "," if n % 2 else "\t", "index": INDEX_MODES[(n + bufsize) % len(INDEX_MODES)],
+                                  "read_c": 2, "with_types": n % 2 == 0})
+    return cases
 
 
 # ----------------------------------------------------------------------------------------------------------
@@ -903,6 +1452,40 @@ def minimise(chk, work):
             if v is not None and v[0] == sig:
                 chk.spec_violations[0] = (sig, dict(case=jsonable_case(small), clause=v[1], impl=_short(impl),
                                                     expected=_short(("ok", v[2], None)), shrunk_from_rows=n))
+        elif case["kind"] == "write1":
+            def fails(rows):
+                c2 = dict(case, rows=rows)
+                v = write1_spec_verdict(c2, run_impl_write1(c2, work))
+                return v is not None and v[0] == sig
+
+            if case.get("perm"):
+                return
+            small = dict(case, rows=common.shrink_list(case["rows"], fails, min_len=0))
+            impl = run_impl_write1(small, work)
+            v = write1_spec_verdict(small, impl)
+            if v is not None and v[0] == sig:
+                chk.spec_violations[0] = (sig, dict(case=jsonable_case(small), clause=v[1],
+                                                    impl=_short(impl[:3]) if impl[0] == "ok" else _short(impl),
+                                                    expected=_short(("ok", v[2], None)),
+                                                    shrunk_from_rows=len(case["rows"])))
+        elif case["kind"] == "auto":
+            def fails(steps):
+                c2 = dict(case, steps=steps)
+                v = auto_classify(c2, run_impl_auto(c2, work), work)
+                return v is not None and v[0] == sig
+
+            small = dict(case, steps=common.shrink_list(case["steps"], fails, min_len=0))
+            impl = run_impl_auto(small, work)
+            v = auto_classify(small, impl, work)
+            if v is not None and v[0] == sig:
+                info_ = dict(case=jsonable_case(small), clause=v[1], shrunk_from_steps=len(case["steps"]))
+                if impl[0] == "ok" and v[2] is not None:
+                    info_["writer"] = v[2]
+                    info_["impl"] = _short(("ok", impl[1][v[2]][0], impl[1][v[2]][1]))
+                    info_["expected"] = _short(("ok", v[3], None))
+                else:
+                    info_["impl"] = _short(impl)
+                chk.spec_violations[0] = (sig, info_)
         else:
             def fails(apps):
                 c2 = dict(case, appends=apps, perm=None)
@@ -943,6 +1526,12 @@ def run_cases(chk, cases, work, tally=True, batch=1500):
         eval_reader_cases(chk, rd[i:i + batch], work, tally)
     for i in range(0, len(wr), batch):
         eval_writer_cases(chk, wr[i:i + batch], work, tally)
+    w1 = [c for c in cases if c["kind"] == "write1"]
+    au = [c for c in cases if c["kind"] == "auto"]
+    for i in range(0, len(w1), batch):
+        eval_write1_cases(chk, w1[i:i + batch], work, tally)
+    for i in range(0, len(au), batch):
+        eval_auto_cases(chk, au[i:i + batch], work, tally)
 
 
 def search(chk):
@@ -952,9 +1541,12 @@ def search(chk):
         rng = chk.rng
         cases = [gen_reader_case(rng, 8) for _ in range(1500 * chk.budget_mult // 5)]
         cases += [gen_writer_case(rng, 8) for _ in range(1000 * chk.budget_mult // 5)]
+        cases += [gen_write1_case(rng, 8) for _ in range(400 * chk.budget_mult // 5)]
+        cases += [gen_auto_case(rng, 8) for _ in range(800 * chk.budget_mult // 5)]
         run_cases(chk, cases, work)
         if not chk.spec_violations:
-            run_cases(chk, exhaustive_readers(4) + exhaustive_writers(4), work)
+            run_cases(chk, exhaustive_readers(4) + exhaustive_writers(4) + exhaustive_write1(3) + exhaustive_auto(4),
+                      work)
         minimise(chk, work)
     finally:
         work.close()
@@ -971,16 +1563,21 @@ def main(chk, args):
         quick = chk.tier == "quick"
         cases = [gen_reader_case(rng) for _ in range(900 if quick else 9000)]
         cases += [gen_writer_case(rng) for _ in range(500 if quick else 5000)]
+        cases += [gen_write1_case(rng) for _ in range(80 if quick else 1200)]
+        cases += [gen_auto_case(rng) for _ in range(90 if quick else 2200)]
         run_cases(chk, cases, work)
         rejected_requests(chk, rng, work, 30 if quick else 200)
         ex = exhaustive_readers(2 if quick else 5) + exhaustive_writers(3 if quick else 5)
+        ex += exhaustive_write1(2 if quick else 4) + (exhaustive_auto(2, 3) if quick else exhaustive_auto(5))
         run_cases(chk, ex, work)
         chk.extra["exhaustive_sweep"] = (
             f"{len(ex)} cases: rows 0..{2 if quick else 5} x chunk sizes 1..n+1 x (text, Parquet with every "
             "row-group size 1..n, in-memory frame with default and with permuted index, renamed, joined pairs of all "
             "base kinds, computed column) x selections None/[]/[a]/[b]/[a,b]/[b,a]; writers: rows "
             f"0..{3 if quick else 5} x both suffixes x buffer sizes 0..n+1 x 3 buffer kinds x all compositions of "
-            "the rows into appends (with empty appends added for n<=3)")
+            "the rows into appends (with empty appends added for n<=3); one-shot write(data): rows "
+            f"0..{2 if quick else 4} x both suffixes x buffer sizes 0/2/n+1 x stale file kinds; auto_finalize: {3 if quick else 4} writer "
+            f"pairs x every program of <= {2 if quick else 5} one-row appends to either or both writers")
         minimise(chk, work)
     finally:
         work.close()
@@ -998,6 +1595,9 @@ def main(chk, args):
         "pd.concat(axis=1) is modelled only for frames with identical row index (the joined reader over one table); "
         "other outer joins are outside the model",
         "computed-column functions are the three families const / a*index+b / column+a*index",
+        "a text file is parsed with the separator it was written with (reading with another separator is outside the "
+        "model: csvReaderSep gives none); cells containing the separator rely on pandas' CSV quoting",
+        "when the block under auto_finalize raises, the state of the files is not modelled (runAuto = none)",
     ]
     chk.finish(build, RULE, search=search, lc=lc,
                trusted_extra=["pandas read_csv/to_csv/concat/iloc/rename, pyarrow Parquet read/write/iter_batches, "
